@@ -172,7 +172,12 @@ class MultiPartUpload(S3Limits):
     def list_active(self):
         s3 = self.s3_client()
         rr = s3.list_multipart_uploads(Bucket=self.bucket, Prefix=self.key)
-        return [x["UploadId"] for x in rr.get("Uploads", [])]
+        # Prefix= also matches longer keys (key.ovr, key.aux.xml, ...): keep this key's uploads only
+        return [
+            x["UploadId"]
+            for x in rr.get("Uploads", [])
+            if x.get("Key", self.key) == self.key
+        ]
 
     def read(self, **kw):
         s3 = self.s3_client()
